@@ -138,7 +138,7 @@ def info(tier):
         % (LEN[tier][0], LEN[tier][1], len(MODELS)),
         "required_cells": [f"model:{m}" for m in MODELS if m not in OPTIONAL_MODELS] + ["obs:evaluate", "obs:compiled-value", "obs:compiled-gradient", "obs:compiled-jacobian",
                                                             "obs:compiled-hessian", "obs:solve-vs-fresh-parameters", "obs:solve-vs-constants",
-                                                            "after-set", "solve:warm-start-at-previous-solution"],
+                                                            "after-set", "solve:warm-start-at-previous-solution", "set:small-relative-change", "set:tiny-value"],
         "assumptions": [
             "twin process: same interpreter / NumPy / SciPy; the solvers are deterministic, so same-path comparisons are tight (1e-7 rel on objective)",
             "literal-Constant twin may legitimately use the LP path: compared on objective only (1e-4), status differences non-comparable unless the same-path twin disagrees too",
@@ -208,6 +208,14 @@ def run_history(rec, rng, twin, mname, length):
             nm = rng.choice(choices)
             if nm in cur_p:
                 v = rng.choice(PV if nm == "p" else QV)
+                rr = rng.random()
+                if rr < 0.25 and cur_p[nm] != 0:
+                    # a small update (bump-and-revalue sensitivity): the new value is the one passed to set(), however close
+                    v = cur_p[nm] * (1.0 + rng.choice([1e-6, -1e-6, 3e-7]))
+                    rec.cmp(1, "set:small-relative-change")
+                elif rr < 0.35 and nm != "p" and mname not in ("divisor-params-linear",):
+                    v = rng.choice([5e-9, -2e-9, 0.0])
+                    rec.cmp(1, "set:tiny-value")
                 b.env[nm].set(v)
                 cur_p[nm] = v
             elif nm in cur_vp:
